@@ -88,11 +88,7 @@ impl Codec {
     ///
     /// If max size is set to `0`, size is unlimited.
     /// By default max size is set to `0`
-    pub fn set_max_outbound_size(&self, mut size: u32) {
-        if size > 5 {
-            // fixed header = 1, var_len(remaining.max_value()) = 4
-            size -= 5;
-        }
+    pub fn set_max_outbound_size(&self, size: u32) {
         self.max_out_size.set(size);
     }
 
@@ -304,10 +300,14 @@ impl Encoder for Codec {
         }
 
         let max_out_size = self.max_out_size.get();
-        let max_size = if max_out_size != 0 {
-            max_out_size
-        } else {
+        let max_size = if max_out_size == 0 {
             MAX_PACKET_SIZE
+        } else if max_out_size < 2 {
+            // no mqtt packet is shorter than two bytes
+            return Err(EncodeError::OverMaxPacketSize);
+        } else {
+            // fixed header = 1, var_len(remaining.max_value()) = 4
+            max_out_size.saturating_sub(5)
         };
         match item {
             Encoded::Packet(pkt) => {
